@@ -153,3 +153,89 @@ package sqlite
 //@     after call sqlcommon.AddFromUlid : resumed = true
 //@     before call (squirrel.SelectBuilder).QueryContext args _ : assert storeScoped && horizon && ordered && (options.Pagination.From != "" ==> resumed)
 //@     after call (squirrel.SelectBuilder).QueryContext : ran = true
+
+// ------------------------------------------------------------------ C16: store lookup and deletion (Go half)
+// GetStore selects exactly the store with this id that is NOT soft-deleted ("a deleted store is no longer returned by
+// GetStore"); DeleteStore marks exactly the store with this id and reports a failed statement
+//@ func (*Datastore).GetStore(s, ctx, id) (res, err)
+//@   property C16
+//@   option nosafety
+//@   option defer_neutral
+//@   ensures @queried res != nil ==> ran
+//@   monitor statement
+//@     ghost ran = false
+//@     before call (squirrel.SelectBuilder).Where args _, pred : assert typeIs(pred, "squirrel.Eq") && typeIs(as(pred, "squirrel.Eq")["id"], "string") && as(as(pred, "squirrel.Eq")["id"], "string") == id && inDom(as(pred, "squirrel.Eq"), "deleted_at") && as(pred, "squirrel.Eq")["deleted_at"] == nil
+//@     after call (squirrel.SelectBuilder).QueryRowContext : ran = true
+
+//@ func (*Datastore).DeleteStore(s, ctx, id) (err)
+//@   property C16
+//@   option nosafety
+//@   option defer_neutral
+//@   ensures @executed err == nil ==> ran && execErr == nil
+//@   monitor statement
+//@     ghost ran = false
+//@     ghost execErr error = nil
+//@     before call (squirrel.UpdateBuilder).Set args _, col, v : assert col == "deleted_at"
+//@     before call (squirrel.UpdateBuilder).Where args _, pred : assert typeIs(pred, "squirrel.Eq") && typeIs(as(pred, "squirrel.Eq")["id"], "string") && as(as(pred, "squirrel.Eq")["id"], "string") == id
+//@     after call (squirrel.UpdateBuilder).ExecContext returning r, e : ran = true ; execErr = e
+
+// ------------------------------------------------------------------ C17 / C14 / C16: model reads (Go half)
+// a model is looked up by exactly (store, id); the latest model of a store is the first row of this store's models in
+// descending id order; the paginated list is this store's models in descending id order ("models newest first"),
+// resumed at id <= token, fetching one row more than the page, and a token is returned only with a full page
+//@ func (*Datastore).ReadAuthorizationModel(s, ctx, store, modelID) (res, err)
+//@   property C17 C16
+//@   option nosafety
+//@   option defer_neutral
+//@   monitor statement
+//@     before call (squirrel.SelectBuilder).Where args _, pred : assert typeIs(pred, "squirrel.Eq") && typeIs(as(pred, "squirrel.Eq")["store"], "string") && as(as(pred, "squirrel.Eq")["store"], "string") == store && typeIs(as(pred, "squirrel.Eq")["authorization_model_id"], "string") && as(as(pred, "squirrel.Eq")["authorization_model_id"], "string") == modelID
+
+//@ func (*Datastore).FindLatestAuthorizationModel(s, ctx, store) (res, err)
+//@   property C17 C16
+//@   option nosafety
+//@   option defer_neutral
+//@   monitor statement
+//@     ghost scoped = false
+//@     ghost ordered = false
+//@     ghost one = false
+//@     after call (squirrel.SelectBuilder).Where args _, pred : scoped = pre(typeIs(pred, "squirrel.Eq") && typeIs(as(pred, "squirrel.Eq")["store"], "string") && as(as(pred, "squirrel.Eq")["store"], "string") == store)
+//@     after call (squirrel.SelectBuilder).OrderBy args _, cols : ordered = pre(len(cols) == 1 && cols[0] == "authorization_model_id desc")
+//@     after call (squirrel.SelectBuilder).Limit args _, n : one = n == 1
+//@     before call (squirrel.SelectBuilder).QueryContext args _ : assert scoped && ordered && one
+
+//@ func (*Datastore).ReadAuthorizationModels(s, ctx, store, options) (res, token, err)
+//@   property C14 C16
+//@   option nosafety
+//@   option defer_neutral
+//@   ensures @fullPageWithToken err == nil && token != "" ==> options.Pagination.PageSize > 0 && len(res) >= options.Pagination.PageSize
+//@   loop 0 invariant token == "" && (options.Pagination.PageSize > 0 ==> len(models) <= options.Pagination.PageSize)
+//@   monitor statement
+//@     ghost scoped = false
+//@     ghost ordered = false
+//@     ghost limited = false
+//@     after call (squirrel.SelectBuilder).Where args _, pred : scoped = scoped || pre(typeIs(pred, "squirrel.Eq") && typeIs(as(pred, "squirrel.Eq")["store"], "string") && as(as(pred, "squirrel.Eq")["store"], "string") == store)
+//@     after call (squirrel.SelectBuilder).OrderBy args _, cols : ordered = pre(len(cols) == 1 && cols[0] == "authorization_model_id desc")
+//@     after call (squirrel.SelectBuilder).Limit args _, n : limited = n == options.Pagination.PageSize + 1
+//@     before call (squirrel.SelectBuilder).QueryContext args _ : assert scoped && ordered && (options.Pagination.PageSize > 0 ==> limited)
+
+// ------------------------------------------------------------------ C12: the write transaction (Go half)
+// the closures handed to busyRetry return exactly what BeginTx / Commit returned (with busyRetry's contract: a Write
+// whose commit closure ran reports the result of its last Commit attempt). A contract for the whole write function
+// (success only after a successful Commit) was attempted and not discharged in the time available; it is not claimed.
+//@ func (*Datastore).write$3() (err)
+//@   property C12
+//@   option nosafety
+//@   ensures @commitResult called && err == res
+//@   monitor commit
+//@     ghost called = false
+//@     ghost res error = nil
+//@     after call (*sql.Tx).Commit returning e : called = true ; res = e
+
+//@ func (*Datastore).write$1() (err)
+//@   property C12
+//@   option nosafety
+//@   ensures @beginResult called && err == res
+//@   monitor begin
+//@     ghost called = false
+//@     ghost res error = nil
+//@     after call (*sql.DB).BeginTx returning t, e : called = true ; res = e
